@@ -201,6 +201,19 @@ func (fs *fakeFS) leafByHandle(h []byte) *fakeLeaf {
 	return nil
 }
 
+// linkedNames lists the leaves the directory (and hence the handle
+// resolver) still knows, for messages.
+func (fs *fakeFS) linkedNames() string {
+	fs.mu.Lock()
+	defer fs.mu.Unlock()
+	var ids []string
+	for _, l := range fs.linked {
+		ids = append(ids, l.id)
+	}
+	sort.Strings(ids)
+	return strings.Join(ids, ",")
+}
+
 // dump renders the file system state canonically.
 func (fs *fakeFS) dump() string {
 	fs.mu.Lock()
